@@ -22,6 +22,20 @@ var dynInstances = []string{
 	"addflpe5f10", // refused without the flopoco binary (counted)
 }
 
+var heavyOps = map[string]bool{"addf": true, "addf16": true, "multf": true, "multf16": true, "divf": true, "divf16": true}
+
+var dynUsable, dynRefused []string
+
+func init() {
+	for _, n := range dynInstances {
+		if f := familyOf(n); f == "fxps" || f == "flpe" {
+			dynRefused = append(dynRefused, n)
+		} else {
+			dynUsable = append(dynUsable, n)
+		}
+	}
+}
+
 // plainOps: static opcodes that talk to no shared object
 func plainOps() []string {
 	var r []string
@@ -140,6 +154,12 @@ func genRandom(t *rapid.T) Case {
 	}
 	cfgDeviate := rapid.IntRange(0, 9).Draw(t, "deviate") == 0 // one case in ten leaves the front-end shape
 	plain := plainOps()
+	var light []string
+	for _, n := range plain {
+		if !heavyOps[n] {
+			light = append(light, n)
+		}
+	}
 	for p := 0; p < np; p++ {
 		var pr Proc
 		pr.Mode = rapid.SampledFrom([]string{"ha", "ha", "ha", "vn", "hy", "hy"}).Draw(t, "mode")
@@ -150,10 +170,16 @@ func genRandom(t *rapid.T) Case {
 		nops := rapid.IntRange(1, 8).Draw(t, "nops")
 		for i := 0; i < nops; i++ {
 			var n string
-			if rapid.IntRange(0, 7).Draw(t, "dyn") == 0 {
-				n = rapid.SampledFrom(dynInstances).Draw(t, "dynop")
+			if k := rapid.IntRange(0, 199).Draw(t, "dyn"); k < 25 {
+				n = rapid.SampledFrom(dynUsable).Draw(t, "dynop")
+			} else if k == 25 {
+				n = rapid.SampledFrom(dynRefused).Draw(t, "dynop-refused") // the tool refuses these here: counted
 			} else {
 				n = rapid.SampledFrom(plain).Draw(t, "op")
+				if heavyOps[n] && rapid.IntRange(0, 3).Draw(t, "heavy") != 0 {
+					// the embedded floating point cores are thousands of lines per use: one draw in four keeps them
+					n = rapid.SampledFrom(light).Draw(t, "lightop")
+				}
 			}
 			info, _ := infoOf(n)
 			if !info.okIn(pr.Mode) && !cfgDeviate {
@@ -276,12 +302,22 @@ func genRandom(t *rapid.T) Case {
 	for i := 0; i < c.Outputs; i++ {
 		sinks = append(sinks, "o"+strconv.Itoa(i))
 	}
-	if len(sources) > 0 {
-		for _, s := range sinks {
-			k := rapid.IntRange(-1, len(sources)-1).Draw(t, "bond")
-			if k >= 0 {
-				c.Bonds = append(c.Bonds, [2]string{s, sources[k]})
+	for _, s := range sinks {
+		lo := -1
+		if strings.HasPrefix(s, "p") && !cfgDeviate {
+			// front-end shape: every processor input has a source
+			lo = 0
+			if len(sources) == 0 {
+				sources = append(sources, "i"+strconv.Itoa(c.Inputs))
+				c.Inputs++
 			}
+		}
+		if len(sources) == 0 {
+			continue
+		}
+		k := rapid.IntRange(lo, len(sources)-1).Draw(t, "bond")
+		if k >= 0 {
+			c.Bonds = append(c.Bonds, [2]string{s, sources[k]})
 		}
 	}
 	return c
@@ -496,6 +532,67 @@ func buildSweep() []Case {
 		}
 		c.Bonds = [][2]string{{"p0i0", "i0"}, {"p1i0", "p0o0"}, {"p2i0", "p0o0"}, {"o0", "p1o0"}, {"o1", "p2o0"}}
 		out = append(out, withProg(c))
+	}
+	// (7) every pair (for the RAM and channel families every subset) of opcodes inside a group that shares
+	// helper declarations through unique[...] / OnlyOne (procbuilder.go:58, utils.go:169): the
+	// defect class is "declared by nobody" or "declared and driven by two"
+	groups := [][]string{
+		{"cmpr", "cmprlt", "cmpv", "jcmpl", "jcmpo", "jcmpa", "jcmprio", "jcmpria"},
+		{"addi", "i2r", "i2rw", "sic", "sicv2", "sicv3", "cmpv"},
+		{"r2o", "r2owa", "r2owaa"},
+		{"r2t", "t2r", "q2r", "r2q", "r2u", "u2r", "k2r"},
+		{"callo4rs", "calla4rs", "ret4rs"},
+		{"push3ds", "pull3ds"},
+	}
+	subsetGroups := [][]string{
+		{"r2m", "m2r", "r2mri", "m2rri"},
+		{"wrd", "wwr", "chc", "chw"},
+	}
+	var sets [][]string
+	for _, g := range groups {
+		for i := 0; i < len(g); i++ {
+			for j := i + 1; j < len(g); j++ {
+				sets = append(sets, []string{g[i], g[j]})
+			}
+		}
+	}
+	for _, g := range subsetGroups {
+		for mask := 1; mask < 1<<uint(len(g)); mask++ {
+			var set []string
+			for k, o := range g {
+				if mask&(1<<uint(k)) != 0 {
+					set = append(set, o)
+				}
+			}
+			if len(set) > 1 {
+				sets = append(sets, set)
+			}
+		}
+	}
+	for _, set := range sets {
+		var modes []string
+		for _, m := range []string{"ha", "vn", "hy"} {
+			ok := true
+			for _, o := range set {
+				if i, _ := infoOf(o); !i.okIn(m) {
+					ok = false
+				}
+			}
+			if ok {
+				modes = append(modes, m)
+			}
+		}
+		var sos []string
+		seen := map[string]bool{}
+		for _, o := range set {
+			if i, _ := infoOf(o); i.so != "" && !seen[i.so] {
+				seen[i.so] = true
+				sos = append(sos, defaultSO(i.so, 1))
+			}
+		}
+		for _, m := range modes {
+			out = append(out, single(8, procFor(set, m, 1, sos), sos))
+		}
 	}
 	return out
 }
